@@ -27,14 +27,19 @@ def real_lemmas(ctx, env):
     return out
 
 
+class Env(dict):
+    """values of the base atoms; `.extra` holds (z3 const, value) pairs of non-field constants"""
+    extra = ()
+
+
 def base_env(model, ctx):
-    env = {}
+    env = Env()
     # free integer / boolean constants that are not field atoms (clk, max_cycles, flags ...)
     extra = []
     for d in model.decls():
         if d.arity() == 0 and d.name() not in ctx.atoms:
             extra.append((d(), model[d]))
-    env["__extra__"] = extra
+    env.extra = extra
     for name, v in ctx.atoms.items():
         if name in ctx.defs:
             continue
